@@ -169,9 +169,10 @@ LRuleMustError(s) ==
 LRuleMayError(s) == LRuleMustError(s) \/ \E r \in Readings(s.rule) : BadReading(r)
 
 (* ----------------------------------------------------------- DiagramRule *)
-DInit == [file |-> "none"]      \* "none" | "good" | "notags"
+DInit == [file |-> "none"]      \* "none" | "good" | a file that lacks a tag: "notags" | "startonly" | "endonly" | "reversed"
+BadlyTagged == {"notags", "startonly", "endonly", "reversed"}
 DiagMethods == {"from_file", "with_base_module", "base_module_included_in_module_names"}
 DiagStep(d, c) == IF c.m = "from_file" THEN [state |-> [d EXCEPT !.file = c.file], out |-> "ok"]
                   ELSE [state |-> d, out |-> "ok"]
-DiagMustError(d) == d.file \in {"none", "notags"}
+DiagMustError(d) == d.file \in {"none"} \cup BadlyTagged
 =============================================================================
